@@ -258,7 +258,7 @@ func (act *activation) call(a *alt, ins ssa.Instruction, c *ssa.CallCommon, defe
 			ct = T.MkSite("call:"+key, site, targs...)
 		}
 		if act.record {
-			act.events = append(act.events, &Event{Key: key, Site: site, Kind: "call", Instr: ins, Fn: act.fn, Args: targs, Call: ct, Atoms: a.atoms, Stack: append([]string(nil), e.stackNames...)})
+			act.events = append(act.events, &Event{Key: key, Site: site, Kind: "call", Instr: ins, Fn: act.fn, Args: targs, Call: ct, Atoms: a.atoms, May: a.may, Stack: append([]string(nil), e.stackNames...)})
 		}
 		if !pure {
 			a.impure = true
@@ -303,7 +303,7 @@ func (act *activation) call(a *alt, ins ssa.Instruction, c *ssa.CallCommon, defe
 	var preAtoms term.Set = a.atoms
 	res := e.runFunc(fn, site, args, fvs, a, act.depth+1)
 	if act.record {
-		act.events = append(act.events, &Event{Key: key, Site: site, Kind: "call", Instr: ins, Fn: act.fn, Args: shown, Call: ct, Atoms: preAtoms, Inline: true, Stack: append([]string(nil), e.stackNames...)})
+		act.events = append(act.events, &Event{Key: key, Site: site, Kind: "call", Instr: ins, Fn: act.fn, Args: shown, Call: ct, Atoms: preAtoms, May: a.may, Inline: true, Stack: append([]string(nil), e.stackNames...)})
 		act.events = append(act.events, res.events...)
 	}
 	var out []*alt
@@ -338,7 +338,7 @@ func (act *activation) call(a *alt, ins ssa.Instruction, c *ssa.CallCommon, defe
 		}
 	}
 	for _, r := range res.rets {
-		n := &alt{atoms: r.atoms, impure: a.impure || r.impure, defers: a.defers}
+		n := &alt{atoms: r.atoms, may: r.may.Union(a.may), impure: a.impure || r.impure, defers: a.defers}
 		n.cells = maps.Clone(r.cells)
 		if n.cells == nil {
 			n.cells = map[int32]cellVal{}
